@@ -230,6 +230,70 @@ def raises(ctx):
         if isinstance(node, ast.Subscript) and isinstance(node.value, ast.Attribute) and node.value.attr == '__dict__':
             return src(node.value.value), src(node.slice)
         return None
+    # a look-up table built inside the function and subscripted with a key that comes from the statements: KeyError for a key it lacks
+    def local_table_lookups(fn):
+        built = {}
+        for n_ in walk_local(fn):
+            if isinstance(n_, ast.Assign) and len(n_.targets) == 1 and isinstance(n_.targets[0], ast.Name):
+                v_ = n_.value
+                if isinstance(v_, (ast.Dict, ast.DictComp)) or (isinstance(v_, ast.Call) and dotted(v_.func) in ('dict', 'collections.OrderedDict', 'OrderedDict')):
+                    built.setdefault(n_.targets[0].id, []).append(n_)
+        parents_ = {}
+        for x_ in ast.walk(fn):
+            for ch_ in ast.iter_child_nodes(x_):
+                parents_[id(ch_)] = x_
+        for n_ in walk_local(fn):
+            direct = isinstance(n_, ast.Subscript) and (isinstance(n_.value, (ast.Dict, ast.DictComp)) or (
+                isinstance(n_.value, ast.Call) and dotted(n_.value.func) in ('dict', 'collections.OrderedDict', 'OrderedDict')))
+            if not (isinstance(n_, ast.Subscript) and isinstance(n_.ctx, ast.Load) and (direct or isinstance(n_.value, ast.Name) and n_.value.id in built)):
+                continue
+            if isinstance(n_.slice, ast.Constant):
+                continue
+            if direct and isinstance(n_.value, ast.Dict) and all(isinstance(k_, ast.Constant) for k_ in n_.value.keys):
+                continue       # a literal table: its key set is a matter of the code, not of the statements
+            tname, key = (src(n_.value)[:40] if direct else n_.value.id), src(n_.slice)
+            # filled with exactly this key in the same function (d[k] = ...; d[k])?
+            if any(isinstance(a_, ast.Assign) and any(isinstance(t_, ast.Subscript) and src(t_.value) == tname and src(t_.slice) == key for t_ in a_.targets)
+                   for a_ in walk_local(fn)):
+                continue
+            cur, guarded = n_, False
+            while parents_.get(id(cur)) is not None and cur is not fn:
+                par_ = parents_[id(cur)]
+                if isinstance(par_, ast.Try) and cur in par_.body and par_.handlers:
+                    guarded = True
+                if isinstance(par_, (ast.If, ast.IfExp)) and (cur in par_.body if isinstance(par_, ast.If) else cur is par_.body):
+                    tests_ = par_.test.values if isinstance(par_.test, ast.BoolOp) and isinstance(par_.test.op, ast.And) else [par_.test]
+                    if any(src(t_) == '%s in %s' % (key, tname) for t_ in tests_):
+                        guarded = True
+                    if not direct and any(isinstance(x_, ast.Name) and x_.id == tname for x_ in ast.walk(par_.test)):
+                        guarded = True      # some test on the table decides whether we get here (precision policy: taken as a guard)
+                if isinstance(par_, (ast.For, ast.ListComp, ast.GeneratorExp, ast.DictComp, ast.SetComp)):
+                    # iterating the table's own keys
+                    gens_ = [par_] if isinstance(par_, ast.For) else par_.generators
+                    for g_ in gens_:
+                        it_ = src(g_.iter)
+                        if it_ in (tname, tname + '.keys()', 'sorted(%s)' % tname, tname + '.items()') and key in [src(x) for x in ast.walk(g_.target)]:
+                            guarded = True
+                if isinstance(par_, list):
+                    break
+                # `if key not in table: continue / raise / return` earlier in an enclosing block
+                for blk in ('body', 'orelse'):
+                    stmts_ = getattr(par_, blk, None)
+                    if isinstance(stmts_, list) and cur in stmts_:
+                        for prev_ in stmts_[:stmts_.index(cur)]:
+                            if isinstance(prev_, ast.If) and prev_.body and isinstance(prev_.body[-1], (ast.Continue, ast.Raise, ast.Return, ast.Break)) and \
+                                    not direct and any(isinstance(x_, ast.Name) and x_.id == tname for x_ in ast.walk(prev_.test)):
+                                guarded = True      # a set-cover / membership test on the table leaves early
+                cur = par_
+            yield n_, tname, key, guarded
+    for q in sorted(reach):
+        if not q.startswith('xtuml.'):
+            continue
+        for node, tname, key, guarded in local_table_lookups(cg.funcs[q]):
+            r.check(guarded, '%s: look-up %s[%s] is guarded' % (q, tname, key), node, construct=q, key='table-lookup ' + tname,
+                    msg='%s subscripts the table `%s`, which it has just built, with `%s`, which comes from the statements: for a name the table '
+                        'lacks a bare KeyError escapes instead of ParsingException / a metamodel exception; reachable via %s'
+                        % (q, tname, key, ' -> '.join(cg.path(roots[0], q) or cg.path(roots[1], q) or [q])))
     n_impl = 0
     in_action = [False]
     for q in sorted(reach):
